@@ -103,8 +103,10 @@ func jobSyncMonitor(res *Result, m *mJob, cfg jsCfg, ops []jsOp, obs []jsObs, js
 	truthFinish := map[string]int64{}      // per task name: when the attempt really ended
 	truthSucceeded := map[string]bool{}    // per hash: a Pod of it really succeeded
 	observedSucceeded := map[string]bool{} // per hash: a pass saw a Pod of it in phase Succeeded in its cache
-	everRecorded := map[string]bool{}      // task names that appeared in some stored status
-	editedSinceFinished := false           // kill or delete issued by the user after the Job was first stored as finished
+	everRecorded := map[string]bool{}
+	refusedForGood := false
+	recordedSucceeded := map[string]string{} // index hash -> task whose success was in the API status      // task names that appeared in some stored status
+	editedSinceFinished := false             // kill or delete issued by the user after the Job was first stored as finished
 	foreignSeen := false
 	var prevJob *execution.Job
 	var prevPods []*corev1.Pod
@@ -147,9 +149,18 @@ func jobSyncMonitor(res *Result, m *mJob, cfg jsCfg, ops []jsOp, obs []jsObs, js
 				}
 			}
 		}
+		if prevJob != nil && prevJob.Status.Condition.Finished != nil && prevJob.Status.Condition.Finished.Result == execution.JobResultAdmissionError {
+			// the Job has been refused for good (a foreign object holds a task name, or a create
+			// was rejected as invalid): that is what its status in the API says
+			refusedForGood = true
+		}
 		if prevJob != nil {
 			for _, r := range prevJob.Status.Tasks {
 				everRecorded[r.Name] = true
+				if r.Status.Result == execution.TaskSucceeded && r.Status.State == execution.TaskTerminated {
+					// the success of this index has been in the Job's status in the API
+					recordedSucceeded[viewRef(r).Hash] = r.Name
+				}
 			}
 		}
 		// Pods removed by this op (force delete, unscheduled delete)
@@ -286,10 +297,18 @@ func jobSyncMonitor(res *Result, m *mJob, cfg jsCfg, ops []jsOp, obs []jsObs, js
 						if adm || cj.DeletionTimestamp != nil {
 							hit("C08", "C08/create-after-gate-closed", fmt.Sprintf("op %d: created %s although the Job has an admission error or is being deleted", k, a.Name))
 						}
+						if refusedForGood && !ob.JobLag {
+							hit("C09", "C09/task-created-after-admission-error", fmt.Sprintf("op %d: created %s although the Job's status in the API already says Finished / AdmissionError (the refusal was to be final; the Job cache is current)", k, a.Name))
+						}
+						reported := false
 						for _, ref := range cj.Status.Tasks {
 							if viewRef(ref).Hash == h && ref.Status.Result == execution.TaskSucceeded {
+								reported = true
 								hit("C08", "C08/create-after-success", fmt.Sprintf("op %d: created %s although %s of the same index succeeded", k, a.Name, ref.Name))
 							}
+						}
+						if rn, ok := recordedSucceeded[h]; ok && !reported {
+							hit("C08", "C08/create-after-success", fmt.Sprintf("op %d: created %s although the status in the API has recorded %s of the same index as Succeeded before (the record was rewritten since)", k, a.Name, rn))
 						}
 					}
 				case "delete":
@@ -565,6 +584,29 @@ func jobSyncMonitor(res *Result, m *mJob, cfg jsCfg, ops []jsOp, obs []jsObs, js
 					}
 					if (m.Strategy == "Any" && n == 0) || (m.Strategy != "Any" && n < len(m.Hashes)) {
 						hit("C10", "C10/success-not-real"+lagSfx(ob), fmt.Sprintf("op %d: result Success but only %d of %d indexes had a Pod that really succeeded", k, n, len(m.Hashes)))
+					}
+				}
+			}
+		}
+		// a task whose Pod the pass saw Succeeded (its container exited 0, whatever an earlier,
+		// restarted run of it did) is not recorded Failed
+		if ob.Job != nil && o.Kind == "sync" {
+			for _, r := range ob.Job.Status.Tasks {
+				if r.Status.State != execution.TaskTerminated || r.Status.Result != execution.TaskFailed {
+					continue
+				}
+				for _, p := range ob.CachedPods {
+					if p.Name != r.Name || !podControlled(p) || p.Status.Phase != corev1.PodSucceeded {
+						continue
+					}
+					oomNow := false
+					for _, cst := range p.Status.ContainerStatuses {
+						if cst.State.Terminated != nil && cst.State.Terminated.Reason == "OOMKilled" {
+							oomNow = true
+						}
+					}
+					if !oomNow {
+						hit("C10", "C10/succeeded-task-recorded-failed", fmt.Sprintf("op %d: Pod %s is Succeeded (container state %+v, last state %+v) but the task is recorded Failed", k, p.Name, p.Status.ContainerStatuses[0].State.Terminated, p.Status.ContainerStatuses[0].LastTerminationState.Terminated))
 					}
 				}
 			}
